@@ -72,10 +72,17 @@ func (s BPlusTreeStore) Get(table storage.Table, key []byte) (*storage.KVPair, e
 
 func (s BPlusTreeStore) GetLast(table storage.Table) (*storage.KVPair, error) {
 	result := new(storage.KVPair)
-	s.db.DescendGreaterThan(KVItem{[]byte{table.Prefix()}, nil}, func(i btree.Item) bool {
+	// start at the first possible key of the next table and walk down to the
+	// greatest key that carries this table's prefix
+	s.db.DescendLessOrEqual(KVItem{[]byte{table.Prefix() + 1}, nil}, func(i btree.Item) bool {
 		item := i.(KVItem)
-		result.Key = item.Key[1:]
-		result.Value = item.Value
+		if item.Key[0] > table.Prefix() {
+			return true
+		}
+		if item.Key[0] == table.Prefix() {
+			result.Key = item.Key[1:]
+			result.Value = item.Value
+		}
 		return false
 	})
 	if result.Key == nil {
@@ -137,6 +144,7 @@ type BPlusKVPairReader struct {
 	prefix  byte
 	db      *btree.BTree
 	lastKey []byte
+	started bool // lastKey is a key already returned (and not the initial table prefix)
 }
 
 func NewBPlusKVPairReader(table storage.Table, db *btree.BTree) *BPlusKVPairReader {
@@ -154,12 +162,16 @@ func (r *BPlusKVPairReader) Read(buffer []*storage.KVPair) (n int, err error) {
 			return false
 		}
 		key := i.(KVItem).Key
+		if key[0] != r.prefix {
+			return false // end of this table
+		}
 
-		if bytes.Compare(key[:1], r.lastKey[:1]) == 0 && bytes.Compare(key, r.lastKey) != 0 {
+		if bytes.Compare(key[:1], r.lastKey[:1]) == 0 && (!r.started || bytes.Compare(key, r.lastKey) != 0) {
 			buffer[n] = &storage.KVPair{key[1:], i.(KVItem).Value}
 			n++
 		}
 		r.lastKey = key
+		r.started = true
 		return true
 	})
 	return n, nil
